@@ -13,6 +13,11 @@ Deciding method
     one the model allows, and the model — run through the driver from the abstraction of the observed
     state — must predict the observed outcome (tie).
 
+  * source tie: `translate/src_lookup.py` emits the ordered statement events of the reader/builder functions on
+    the two dictionaries; `DS.Props.SrcLookup` decides from them (in Lean) that both are the `publish` protocol with
+    `ensureFirst` readers of 3 / 1 candidate keys, agrees with translate/protocol.py, and restates linearizability
+    for the protocol so decided.  A broken tie widens the schedule search.
+
 No source hooks.  The worker part of this file runs in fresh subprocesses (`python -m harness.c19`).
 """
 import json
@@ -346,6 +351,25 @@ def count_points(call):
     return runs[0]["nev"][0], meta
 
 
+# theorems of DS.Props.SrcLookup that concern the build protocol of the two dictionaries and the shape of their readers;
+# the others identify the lookup functions with the C11 model
+TIE_C19 = {"id_protocol", "hash_protocol", "id_reader", "hash_reader", "reader_candidates", "no_other_users", "facts_eq",
+           "protocol_agrees", "id_table_linearizable_src", "hash_table_linearizable_src", "never_partial_src",
+           "candidateKeys_length", "GetSpaceGroup_first_candidate"}
+
+
+def tie_relevant(ck, tie_ok, tie_info):
+    """a tie broken only in theorems that concern the other property (C11) is not this property's business"""
+    if tie_ok:
+        return True
+    broken = set(tie_info.get("broken_theorems") or [])
+    if broken and not (broken & TIE_C19) and not (tie_info.get("translator") or {}).get("error") \
+            and set(tie_info.get("failed_modules") or []) <= {"DS.Props.SrcLookup"}:
+        ck.notes.append("source tie: only theorems of the other property (C11) are broken (%s)" % ", ".join(sorted(broken)))
+        return True
+    return False
+
+
 LEAN_NAME = {"publish": "publish", "inplace-clear": "inplace", "inplace-noclear": "inplace-noclear"}
 
 
@@ -382,17 +406,31 @@ def run(ck):
     GEN = os.path.join(LEAN, "DS", "Gen")
     rep = protocol.main(GEN, common.REPO)
     ok, info = ck.lean_obligations("DS.Props.C19")
+    # source tie (DS.Props.SrcLookup imports Gen/Lookup.lean for its C11 part: refresh it from this tree first; the
+    # translator imports the package, so it runs in a process of its own)
+    p = subprocess.run([common.PY, os.path.join(VERIF, "translate", "lookup.py")], cwd=VERIF, capture_output=True, text=True,
+                       env=dict(os.environ, VERIF_REPO=common.REPO))
+    if p.returncode != 0:
+        ck.notes.append("translate/lookup.py failed: %s" % p.stderr[-300:])
+    cmd = ck.coverage["checker_cmd"]
+    tie_ok, tie_info = ck.source_tie("DS.Props.SrcLookup", groups=("lookup",))
+    ck.coverage["checker_cmd"] = cmd + "; source tie: lake build DS.Props.SrcLookup"
+    tie_ok = tie_relevant(ck, tie_ok, tie_info)
     protos = {t: rep[t]["protocol"] for t in ("id", "hash")}
     ck.notes.append("extracted: id=%s/%s hash=%s/%s" % (protos["id"], rep["id"]["reader_shape"], protos["hash"], rep["hash"]["reader_shape"]))
 
     quick = ck.tier == "quick"
+    wide = not tie_ok     # broken tie: the thorough set of readers at every pre-emption point, four times the two-switch schedules
+    if wide:
+        ck.notes.append("source tie broken (%s): schedule search widened" % ", ".join(
+            tie_info.get("broken_theorems") or tie_info.get("failed_modules") or ["translator"]))
     rng = ck.rng
     # calls ---------------------------------------------------------------------------
     id_builders = [["Get", 225]] if quick else [["Get", 225], ["Get", "Fm-3m"], ["Is", " p 21/c "]]
     hash_builders = [["Find", 225, "same"]] if quick else [["Find", 225, "same"], ["Find", 62, "reversed"]]
     readers_q = [["Get", "Fm-3m"], ["Get", 225], ["Get", "Ia3d"], ["FindIdx", -1]]   # last alias stored, last setting stored
     readers_t = readers_q + [["Find", 62, "same"], ["Is", "P 1 21/c 1"], ["Get", "no such group"], ["Find", 225, "reversed"]]
-    readers = readers_q if quick else readers_t
+    readers = readers_q if quick and not wide else readers_t
 
     schedules, tags = [], []
     npts = {}
@@ -408,12 +446,14 @@ def run(ck):
                 pts = sorted(set(range(0, N + 1, 17)) | {N})
             else:
                 pts = list(range(N + 1))
+            if quick and r not in readers_q:   # readers added because the source tie is broken: every 4th point
+                pts = sorted(set(pts[::4]) | {N})
             for p in pts:
                 schedules.append({"threads": [b, r], "traced": [1, 0], "segs": [[0, p], [1, -1], [0, -1]]})
                 tags.append(("point", b, r, p))
     # builder / builder pairs: both traced, two switches
     pair_calls = [(["Get", 225], ["Get", "Fm-3m"]), (["Find", 225, "same"], ["Find", 62, "same"]), (["Get", "Pnma"], ["Is", 225])]
-    npairs = 60 if quick else 1500
+    npairs = (240 if wide else 60) if quick else 1500
     for _ in range(npairs):
         a, b = pair_calls[0] if quick else pair_calls[rng.randrange(len(pair_calls))]
         Na = npts.get(json.dumps(a)) or npts[json.dumps(id_builders[0])]
@@ -558,6 +598,7 @@ def run(ck):
                 ck.fail("protocol:%s:%s" % (t, protos[t]), "extracted protocol of %s is %s (%s), readers %s; no failing schedule found" % (
                     rep[t]["table"], protos[t], rep[t]["why"], rep[t]["reader_shape"]),
                     {"kind": "translator", "report": rep[t], "theorem": "DS.Props.C19.%s_table_linearizable" % t}, no_failing_input=True)
+    ck.tie_verdict(tie_ok, tie_info, "spacegroups.py lookup functions (statement skeleton of the two lazily built dictionaries)")
     if not ok and not ck.violations:
         ck.fail("lean-build", "Lean obligations of C19 no longer check: %r" % info["failed_modules"],
                 {"kind": "proof-obligation", "theorem": info["failed_modules"], "errors": info["errors"]}, no_failing_input=True)
@@ -575,6 +616,7 @@ def run(ck):
         {"driver": lines[:2], "model": out[:2]},
     ]
     ck.coverage["trusted_base"] += ["translate/protocol.py (ast classification of the build protocol and reader shape)",
+                                    "translate/src_lookup.py (ordered statement events of the reader/builder functions; the classification itself is the Lean function DS.Props.SrcLookup.protocolOf / readerOf)",
                                     "CPython: one line event boundary = possible thread switch; GIL makes dict.update atomic"]
     ck.assumptions += ["pre-emption inside one bytecode / C call (dict.update, dict.__contains__) is not exercised: GIL atomicity assumed; not valid for free-threaded CPython",
                        "keys are abstract in the model (K arbitrary); GetSpaceGroup's three candidate spellings are the model's candidate list",
@@ -584,6 +626,11 @@ def run(ck):
 def replay(path):
     r = json.load(open(path))
     s = r.get("schedule")
+    if r.get("kind") == "source-tie":
+        from . import c11
+        common.use_repo()
+        sys.path.insert(0, VERIF)
+        return c11.replay_tie()
     if not s:
         # translator / proof-obligation records: re-decide on the tree under examination
         sys.path.insert(0, VERIF)
